@@ -14,6 +14,7 @@ import Nq.Lemmas.Pop3Stat
 import Nq.Lemmas.Pop3Sim
 import Nq.Lemmas.Pop3Walk8
 import Nq.Lemmas.SmtpCmdPop3
+import Nq.Lemmas.Pop3Popup
 
 namespace Nq.Props.C19
 open Nq Nq.Pop3 Nq.Pop3Ref Nq.Lemmas.Pop3 Nq.Lemmas.Pop3Heap
@@ -527,6 +528,22 @@ theorem C19_preauth_main_apop (pid now : Nat) (host : Bytes) (child : Popup.Chil
         fd3 := some (name ++ [NUL] ++ digest ++ [NUL] ++ [60] ++ Popup.unique pid now ++ host ++ [62, NUL]), code := 1 } :=
   pmain_apop pid now host child v name digest tail k h hk hn hn0 hd
 
+/-- **Every pre-authentication dialogue of the model is accepted by the independent reference
+`Pop3Ref.popupOk`** (the predicate the driver evaluates on the implementation): main() of qmail-popup on ANY
+sequence of NUL- and LF-free command lines, followed by any unfinished last line, with any host name without LF
+and any fate of the subprogram — the greeting carries a timestamp `<…@…host>`, every reply is "+OK"/"-ERR" as
+the reference `prefStep` requires (USER/PASS/APOP/QUIT/NOOP honoured, everything else refused, PASS before USER
+refused), descriptor 3 receives exactly `user NUL pass NUL <that timestamp> NUL` for the credentials the
+reference computes (PASS: the last USER argument and the PASS argument; APOP: split at the first space) and
+nothing otherwise, and after the checker only what its exit status calls for is written.
+(Not in this theorem: the exit code, and lines containing NUL.) -/
+theorem C19_preauth_session (pid now : Nat) (host : Bytes) (child : Popup.Child) (lines : List Bytes) (tail : Bytes)
+    (hh : LF ∉ host) (hl : ∀ l ∈ lines, ∀ c ∈ l, c ≠ NUL ∧ c ≠ LF) (ht : LF ∉ tail) :
+    popupOk host lines (childOkOf child)
+      (Popup.pmain pid now host child (lines.flatMap (· ++ [LF]) ++ tail)).out
+      (Popup.pmain pid now host child (lines.flatMap (· ++ [LF]) ++ tail)).fd3 = true :=
+  popup_ok pid now host child lines tail hh hl ht
+
 /-! ### the command tables (regenerated from the sources on every run) -/
 
 /-- the verbs and handlers the model implements are those of the two `pop3commands[]` tables -/
@@ -754,38 +771,70 @@ theorem C19_numbering_admissible (now : Nat) (fs : FS) (hu : (fs.map (·.path)).
       numberingOf (cleanTmp now fs) (getlist now (cleanTmp now fs)) = L.map toR :=
   numbering_admissible now fs hu
 
-/-- **Session simulation: the reference accepts every transcript of the model.** main() as a
-non-root user on any maildir (side conditions as in `C19_sim_start`; names unique and no message
-carrying the name QUIT would give another: `NamesOk`), fed any sequence of NUL- and LF-free command lines
-and removals by third parties: its output is the greeting followed by `w`, and the reference session
-`walk`, started on the numbering of the maildir, accepts `w` reply by reply (STAT total, LAST, LIST/UIDL
-values, RETR/TOP payloads as decoded by a client, refusals) — ending either without QUIT, in related
-states with the maildir untouched but for the removals (`C19_no_quit_no_delete`), or at QUIT, with
-pop3_quit's lines accepted by `matchQuit`, exit code 0 and the maildir that `quitLoop` leaves from a
-state related to the reference's (`C19_quit_keeps`, `C19_quit_removes`, `C19_quit_renames` say what that
-is, path by path).  This is `sessionOk` of the oracle for the model up to the final comparison of the
-maildir, which is stated path by path rather than as the sorted list `expectFs`. -/
-theorem C19_session_simulation (uid now : Nat) (fs : FS) (levs : List LEv) (hu : uid ≠ 0)
+/-- **QUIT does not touch anything that is not a message**: a path that is neither the name of a
+message nor the new name of one is looked up after QUIT exactly as before — present with the same file
+(data, times) or absent. (tmp/ files, dot files, files delivered after start-up, files with mtime ≥ now.) -/
+theorem C19_quit_other_paths (s : Sess) (verb arg p : Bytes) (hq : verbIs vQuit verb = true)
+    (h1 : ∀ m ∈ s.msgs, m.fn ≠ p) (h2 : ∀ m ∈ s.msgs, seenName m.fn ≠ p) :
+    fsFind (exec s verb arg).1.fs p = fsFind s.fs p := by
+  simp only [exec, hq, if_true]
+  cases hf : fsFind s.fs p with
+  | some f => exact quit_keeps s.msgs s.fs [] p f hf (fun m hm e => absurd e (h1 m hm)) (fun m hm _ _ => h2 m hm)
+  | none => exact quit_absent s.msgs s.fs [] p hf h2
+
+/-- **Session simulation: the reference accepts every transcript of the model** — `_partial`: the reply
+stages of the oracle `sessionOk` are proved for the model on all sessions; its last stage is not.
+
+main() as a non-root user on any maildir (side conditions as in `C19_sim_start`; names unique and no message
+carrying the name QUIT would give another: `NamesOk`), fed any sequence of NUL- and LF-free command lines and
+removals by third parties: its output is the greeting followed by `w`, and the reference session `walk`,
+started on the numbering of the maildir, accepts `w` reply by reply (STAT total, LAST, LIST/UIDL values,
+RETR/TOP payloads as decoded by a client, refusals, QUIT's lines by `matchQuit`), exit code 0.
+The events split into `pre` (no QUIT line) and `post`. The state `s'` after `pre` is pinned down: related to the
+reference's final state (`Sim`: which messages are marked, which files are gone), its maildir is EXACTLY the
+maildir main() started from (after maildir_clean) minus the removals in `pre` — every file, message or not,
+with its data and times — and its message table denotes the files and sizes of start-up. Without QUIT
+(`q = false`) `post = []` and the final maildir is that of `s'`: nothing was removed by the server. With QUIT,
+`post` starts with the QUIT line and the final maildir is what pop3_quit's loop makes of `s'`; what that is,
+is said path by path by `C19_quit_removes` (marked: gone), `C19_quit_renames` (unmarked in new/: in cur/ with
+":2,", same data), `C19_quit_keeps` and `C19_quit_other_paths` (everything else: untouched).
+
+MISSING for the full statement
+  `sessionOk numbering (fs1.map toR) (levs.map toREv) main.out (main.fs.map toR) = true`:
+the last stage of `sessionOk`, `sortFs (expectFs rs' q …) == sortFs (main.fs.map toR)` — the final maildir as
+ONE list equal to the reference's `expectFs` up to order (needs: the path-by-path theorems assembled into a
+permutation, and correctness of `Array.qsort`); and a removal in the middle of a command line (the theorem is
+at line granularity; `C19_chunking` covers read sizes). -/
+theorem C19_session_simulation_partial (uid now : Nat) (fs : FS) (levs : List LEv) (hu : uid ≠ 0)
     (h1 : (getlist now (cleanTmp now fs)).length ≤ INT_MAX)
     (h2 : ∀ f ∈ fs, LF ∉ f.path)
     (h3 : ((numberingOf (cleanTmp now fs) (getlist now (cleanTmp now fs))).map (fun r => r.data.length)).sum < U64 - 1)
     (hn : NamesOk ((getlist now (cleanTmp now fs)).map (·.fn)))
     (hl : ∀ l, LEv.line l ∈ levs → ∀ c ∈ l, c ≠ NUL ∧ c ≠ LF) :
-    ∃ w rs' q,
+    ∃ w rs' q pre post s', levs = pre ++ post ∧
       (Pop3.main uid true now fs (levs.map LEv.toEv)).out = okLine ++ w ∧
       readLine (okLine ++ w) = some (okSp, w) ∧ isOk okSp = true ∧
       walk { msgs := numberingOf (cleanTmp now fs) (getlist now (cleanTmp now fs)) } (levs.map LEv.toREv) w = some (rs', q) ∧
       (Pop3.main uid true now fs (levs.map LEv.toEv)).code = 0 ∧
-      (q = false → ∃ s', Sim s' rs' ∧ (Pop3.main uid true now fs (levs.map LEv.toEv)).fs = s'.fs) ∧
-      (q = true → ∃ s', Sim s' rs' ∧ NamesOk (s'.msgs.map (·.fn)) ∧
+      Sim s' rs' ∧ NamesOk (s'.msgs.map (·.fn)) ∧
+      s'.fs = vanishedL pre (cleanTmp now fs) ∧
+      s'.msgs.map ident = (getlist now (cleanTmp now fs)).map ident ∧
+      (∀ l, LEv.line l ∈ pre → verbIs vQuit (parseLine l).1 = false) ∧
+      (q = false → post = [] ∧ (Pop3.main uid true now fs (levs.map LEv.toEv)).fs = s'.fs) ∧
+      (q = true → (∃ l rest, post = .line l :: rest ∧ verbIs vQuit (parseLine l).1 = true) ∧
         (Pop3.main uid true now fs (levs.map LEv.toEv)).fs = (quitLoop s'.msgs s'.fs []).1) := by
   have hfeed := feed_levs levs (start now fs) rfl (fun l hm hh => (hl l hm LF hh).2 rfl)
-  obtain ⟨w, rs', q, w1, w2, w3, w4⟩ := walk_sim levs (start now fs) _ (sim_start now fs h1 h2 h3) rfl hn
-    (fun l hm c hc => (hl l hm c hc).1)
+  obtain ⟨w, rs', q, pre, post, s', w0, w1, w2, w3, w4, w5, w6, w7, w8, w9⟩ :=
+    walk_sim levs (start now fs) _ (sim_start now fs h1 h2 h3) rfl hn (fun l hm c hc => (hl l hm c hc).1)
   rw [main_eq_start uid now fs _ hu, hfeed]
-  refine ⟨w, rs', q, w1, readLine_okLine w, by decide, w2, rfl, ?_, ?_⟩
-  · intro hq; exact ⟨_, (w3 hq).1, rfl⟩
-  · intro hq; exact (w4 hq).2
+  refine ⟨w, rs', q, pre, post, s', w0, w1, readLine_okLine w, by decide, w2, rfl, w3, w4, w5, w6, ?_, ?_, ?_⟩
+  · intro l hm; simpa [verbIs] using w7 l hm
+  · intro hq
+    obtain ⟨a, b, _⟩ := w8 hq
+    exact ⟨a, by rw [b]⟩
+  · intro hq
+    obtain ⟨⟨l, rest, a, b⟩, _, c⟩ := w9 hq
+    exact ⟨⟨l, rest, a, by simpa [verbIs] using b⟩, c⟩
 
 /-! ### Non-vacuity (bytes written out: 10 = LF, 13 = CR, 46 = '.', 97 = 'a', 32 = SP) -/
 
@@ -843,7 +892,7 @@ example : (exec ⟨[⟨[110, 101, 119, 47, 97], 1, false⟩, ⟨[99, 117, 114, 4
 /-- "TOP 1 18446744073709551615": the count saturates, the limit is 0 -/
 example : topCount [49, 32, 49, 56, 52, 52, 54, 55, 52, 52, 48, 55, 51, 55, 48, 57, 53, 53, 49, 54, 49, 53] = some (U64 - 1) := by decide
 
-/-- the hypotheses of `C19_session_simulation` hold for the maildir of the example above and the session
+/-- the hypotheses of `C19_session_simulation_partial` hold for the maildir of the example above and the session
 "DELE 1", new/a removed by somebody else, "retr 3" CR, "QUIT" -/
 def exFs : FS := [⟨[99, 117, 114, 47, 98], [1, 2], 7, 0⟩, ⟨[110, 101, 119, 47, 46, 120], [], 1, 0⟩,
       ⟨[110, 101, 119, 47, 97], [1], 9, 0⟩, ⟨[110, 101, 119, 47, 99], [1, 2, 3], 3, 0⟩,
